@@ -66,6 +66,56 @@ def _cases(draw):
             spec["steps"][n]["need"] = "optional"
             spec["steps"][n]["amend_out"] = []
         hist["stages"][1]["edit"].append([f"extra_{kind}", n])
+    # A plan that is rerun while one of its steps is already running again: the plan idles first
+    # (so the job loop dispatches the step, whose script changed, under its running creator) and
+    # then re-declares it, which detaches the step while it is RUNNING.
+    plans = [p for p in specgen.active_plans(spec)
+             if any(it[0] == "step" for it in spec["plans"][p]["items"])]
+    if plans and draw(st.integers(0, 2)) == 0:
+        p = draw(st.sampled_from(plans))
+        kids = [it[1] for it in spec["plans"][p]["items"] if it[0] == "step"]
+        kid = draw(st.sampled_from(kids))
+        spec["plans"][p]["items"].insert(0, ["pause"])
+        if draw(st.booleans()):
+            spec["plans"][p]["items"].insert(0, ["pause"])
+        spec["steps"][kid]["variant"] = spec["steps"][kid].get("variant", 0) + 1
+        hist["stages"][1]["build"]["njob"] = draw(st.integers(2, 4))
+        hist["stages"][1]["edit"].append(["extra_rerun_running", p, kid])
+    # A plan that is deferred while one of its steps is running: it defines a step, idles, then
+    # announces an input that another plan's step has not built yet. When that input appears the
+    # plan is dispatched again and its reset detaches the step, which may still be RUNNING.
+    # (a sub-plan: the producer of the late input is defined by the root plan, and a plan that
+    # waits for a product of its own can never finish)
+    plans = [p for p in specgen.active_plans(spec) if p != "plan.py"
+             and any(it[0] == "step" for it in spec["plans"][p]["items"])]
+    if plans and draw(st.integers(0, 1)) == 0:
+        p = draw(st.sampled_from(plans))
+        for stage in hist["stages"][1:]:
+            # only the second build: the plan changed, so it runs again, and the late input is new
+            sp = stage["spec"]
+            if p not in sp["plans"]:
+                continue
+            sp["steps"]["late"] = {
+                "script": "late.py", "args": [], "workdir": ".", "inp": sorted(sp["sources"])[:1],
+                "out": ["gen/late.out"], "vol": [], "env": [], "need": "default",
+                "resources": {}, "amend_inp": [], "amend_out": [], "read_first": False,
+                "fail": None, "partial": False, "variant": 0}
+            root = sp["plans"]["plan.py"]["items"]
+            if ["step", "late"] not in root:
+                root.append(["step", "late"])
+            # a step of the deferring plan that takes many turns (one per read)
+            srcs = sorted(sp["sources"])
+            sp["steps"]["slowkid"] = dict(sp["steps"]["late"], script="slowkid.py",
+                                          inp=(srcs * 3)[:6], out=["gen/slowkid.out"])
+            sp["steps"]["slowkid"]["workdir"] = "."
+            items = [it for it in sp["plans"][p]["items"]
+                     if it[0] != "chaos" and it != ["step", "slowkid"]]
+            items[0:0] = [["step", "slowkid"]] + [["pause"]] * draw(st.integers(1, 2)) + [
+                ["chaos", ["amend", {"inp": ["gen/late.out"]}]]]
+            sp["plans"][p]["items"] = items
+        for stage in hist["stages"]:
+            stage["build"]["njob"] = draw(st.integers(3, 4))
+        hist["stages"][1]["edit"].append(["extra_deferred_plan", p])
     for stage in hist["stages"]:
         stage["build"]["do_clean"] = True
         for sd in stage["spec"]["steps"].values():
@@ -84,10 +134,13 @@ def image_facts(image_dir):
     con = sqlite3.connect(db)
     try:
         try:
-            for label, state in con.execute(
-                    "SELECT node.label, step.state FROM step JOIN node ON node.i = step.node"):
+            for label, state, detached in con.execute(
+                    "SELECT node.label, step.state, node.detached FROM step JOIN node "
+                    "ON node.i = step.node"):
                 if state == 22:
                     facts["running"].append(label)
+                    if detached:
+                        facts["running_detached"] = facts.get("running_detached", 0) + 1
                 elif state == 25:
                     facts["checking"].append(label)
             facts["unconfirmed"] = con.execute(
@@ -250,6 +303,8 @@ async def check_image(case, tag, image_dir, stage1, ref_rc, ref_files, ref_graph
     rec.event("image:" + ("turn" if tag.startswith("t") else "commit"))
     if facts["running"]:
         rec.event("image:has-running-step")
+    if facts.get("running_detached"):
+        rec.event("image:has-running-detached-step")
 
 
 def _after_job_loop(tag, case):
